@@ -196,9 +196,9 @@ func c12Uncovered(ts []osTemplate) []string {
 	return missing
 }
 
-var c12Contexts = []string{"top", "spawn", "go-chan", "clone-call", "module-body", "module-func", "callback", "defer", "vm-reuse", "vm-reuse-spawn", "vm-reuse-call"}
-var c12Routes = []string{"WithOS", "ctx"}
-var c12Faults = []string{"none", "fail-first", "fail-all"}
+var c12Contexts = []string{"top", "spawn", "go-chan", "clone-call", "module-body", "module-func", "callback", "defer", "vm-reuse", "vm-reuse-spawn", "vm-reuse-call", "nested-eval"}
+var c12Routes = []string{"WithOS", "ctx", "ctx-layered"}
+var c12Faults = []string{"none", "fail-first", "fail-all", "relative-cwd"}
 
 func c12Total() int { return len(osTemplates()) * len(c12Contexts) * len(c12Routes) * len(c12Faults) }
 
@@ -265,7 +265,7 @@ func c12Source(t osTemplate, context string) (main string, modules map[string]st
 		return "import pm\npm.body_result\n", map[string]string{"pm.risor": probe + "body_result := try(probe, " + handler + ")\n"}
 	case "module-func":
 		return "import pm\ntry(pm.probe, " + handler + ")\n", map[string]string{"pm.risor": probe}
-	case "vm-reuse":
+	case "vm-reuse", "nested-eval":
 		return probe + "try(probe, " + handler + ")\n", nil
 	case "vm-reuse-spawn":
 		return probe + "t := spawn(func() { return try(probe, " + handler + ") })\nt.wait()\n", nil
@@ -375,11 +375,24 @@ func runC12(rc *fw.RunCtx) {
 		}
 		opts = append(opts, risor.WithImporter(importer.NewFSImporter(importer.FSImporterOptions{GlobalNames: names, SourceFS: fs.FS(mfs), Extensions: []string{".risor"}})))
 	}
+	// a second simulated machine that must never answer: it sits underneath in
+	// layered contexts, in warm-up runs of reused VMs and around nested evaluations
+	decoy := simos.New()
+	decoy.Setenv("VERIF_SENTINEL", "decoy-value")
+	decoy.Setenv("SIMONLY", "decoy-only")
+	decoy.Host = "decoy-host"
 	ctx, cancel := context.WithCancel(context.Background())
-	if route == "WithOS" {
+	optsNoOS := append([]risor.Option{}, opts...)
+	switch route {
+	case "WithOS":
 		opts = append(opts, risor.WithOS(sos))
-	} else {
+	case "ctx":
 		ctx = ros.WithOS(ctx, sos)
+	default: // ctx-layered: the host OS is layered over a context that already carries one
+		ctx = ros.WithOS(ros.WithOS(ctx, decoy), sos)
+	}
+	if fault == "relative-cwd" {
+		sos.RelCwd = "relwork"
 	}
 
 	out := &EvalOutcome{}
@@ -418,6 +431,33 @@ func runC12(rc *fw.RunCtx) {
 			// a second host task calls entry() on a clone
 			s.Go("host", "clone-caller", caller)
 		})
+	} else if ctxName == "nested-eval" {
+		// an outer evaluation (on the decoy machine) calls a host builtin that
+		// runs the probe in an inner evaluation with the host OS placed in the
+		// builtin's own context
+		inner := object.NewBuiltin("inner", func(bctx context.Context, args ...object.Object) object.Object {
+			iopts := optsNoOS
+			ictx := bctx
+			if route == "WithOS" {
+				// (a context OS takes precedence over the option by documented
+				// design, so the option route starts from a clean context)
+				iopts = append(append([]risor.Option{}, optsNoOS...), risor.WithOS(sos))
+				ictx = context.Background()
+			} else {
+				ictx = ros.WithOS(bctx, sos)
+			}
+			v, err := risor.Eval(ictx, src, iopts...)
+			if err != nil {
+				return object.NewString("ERR:" + err.Error())
+			}
+			return v
+		})
+		oopts := append(append([]risor.Option{}, optsNoOS...), risor.WithOS(decoy), risor.WithGlobal("inner", inner))
+		octx, ocancel := context.WithCancel(context.Background())
+		defer ocancel()
+		s.Go("main", "main", func() {
+			guard(out, func() (object.Object, error) { return risor.Eval(octx, "inner()", oopts...) })
+		})
 	} else if strings.HasPrefix(ctxName, "vm-reuse") {
 		// one VM reused for several evaluations (risor.WithVM): the probe runs in
 		// the second or third one
@@ -426,9 +466,15 @@ func runC12(rc *fw.RunCtx) {
 			panic("harness: " + err.Error())
 		}
 		ropts := append(append([]risor.Option{}, opts...), risor.WithVM(machine))
+		// the warm-up run is configured differently (another OS, or none): what
+		// counts for the probe is the configuration of ITS evaluation
+		wopts := append(append([]risor.Option{}, optsNoOS...), risor.WithVM(machine))
+		if round%2 == 0 {
+			wopts = append(wopts, risor.WithOS(decoy))
+		}
 		s.Go("main", "main", func() {
 			guard(out, func() (object.Object, error) {
-				if _, err := risor.Eval(ctx, "1 + 1", ropts...); err != nil {
+				if _, err := risor.Eval(ctx, "1 + 1", wopts...); err != nil {
 					return nil, fmt.Errorf("harness: warm-up evaluation failed: %w", err)
 				}
 				v, err := risor.Eval(ctx, src, ropts...)
@@ -541,8 +587,8 @@ func runC12(rc *fw.RunCtx) {
 				return
 			}
 		}
-		if strings.Contains(res, "real-value") || strings.Contains(res, "only-real") {
-			rc.Violate("divergence/real-data/"+locus, "%s: result %q carries data of the real machine", tuple, res)
+		if leak := c12Leak(res); leak != "" {
+			rc.Violate("divergence/real-data/"+locus, "%s: result %q carries %s", tuple, res, leak)
 			return
 		}
 		if t.Stdout != "" && !strings.Contains(sos.StdoutString(), t.Stdout) {
@@ -570,9 +616,48 @@ func runC12(rc *fw.RunCtx) {
 			rc.Violate("fault-visibility/succeeded-despite-os-error/"+locus, "%s: the simulated OS failed the call but the script got %q (calls %v)", tuple, res, callStrs)
 			return
 		}
-		if strings.Contains(res, "real-value") || strings.Contains(res, "only-real") {
-			rc.Violate("divergence/real-data/"+locus, "%s: result %q carries data of the real machine", tuple, res)
+		if leak := c12Leak(res); leak != "" {
+			rc.Violate("divergence/real-data/"+locus, "%s: result %q carries %s", tuple, res, leak)
+			return
+		}
+	case "relative-cwd":
+		// a host that reports a relative working directory: answers may differ
+		// in form, but must still come from the simulated machine only
+		for _, m := range t.Methods {
+			if methods[m] == 0 {
+				rc.Violate("mediation/not-logged/"+locus, "%s: simulated OS never saw %s (result %q, calls %v)", tuple, m, res, callStrs)
+				return
+			}
+		}
+		if leak := c12Leak(res); leak != "" {
+			rc.Violate("divergence/real-data/"+locus, "%s: result %q carries %s", tuple, res, leak)
 			return
 		}
 	}
+	if len(decoy.Calls()) > 3 {
+		// (3 = the Setenv calls that configured it)
+		var dc []string
+		for _, c := range decoy.Calls()[3:] {
+			dc = append(dc, c.Method+"("+c.Args+")")
+		}
+		rc.Violate("mediation/wrong-os-instance/"+locus, "%s: calls reached an OS instance that was not the one supplied for this evaluation: %v (result %q)", tuple, dc, res)
+		return
+	}
+}
+
+// c12Leak reports data of the real machine (or of the decoy machine) in a result.
+func c12Leak(res string) string {
+	if strings.Contains(res, "real-value") || strings.Contains(res, "only-real") {
+		return "environment data of the real machine"
+	}
+	if strings.Contains(res, "decoy") {
+		return "data of an OS instance that was not supplied for this evaluation"
+	}
+	if wd, err := goos.Getwd(); err == nil && len(wd) > 3 && strings.Contains(res, wd) {
+		return "the real process working directory"
+	}
+	if hn, err := goos.Hostname(); err == nil && len(hn) > 3 && strings.Contains(res, hn) {
+		return "the real host name"
+	}
+	return ""
 }
